@@ -942,6 +942,12 @@ func (x *X) appendBuiltin(f *Frame, st *State, call *ast.CallExpr) Value {
 		if src.slice != nil {
 			sinner := c.innerArr(st, elT, k, src.slice.C[0])
 			upd = x.copyRange(st, inner, start, sinner, src.slice.C[1], n)
+			if b, ok := elT.Underlying().(*types.Basic); ok && b.Kind() == types.Uint8 {
+				// abstract content of the result: concatenation of the two abstract contents
+				// (bcat is interpreted as byte-string concatenation; a ground fact per append)
+				c.assume(st.pc, Eq(App("bytes_of", SBytes, upd, off, newLen),
+					App("bcat", SBytes, App("bytes_of", SBytes, inner, off, ln), App("bytes_of", SBytes, sinner, src.slice.C[1], n))))
+			}
 		} else {
 			upd = inner
 			for j, v := range src.single {
